@@ -245,7 +245,7 @@ func c01Run(w *kernel.Worker, j *c01Job, rep *kernel.Report) (*c01Result, error)
 			if d.Timeout {
 				return fail("no-answer", "worker gave no answer within the job deadline"), nil
 			}
-			return &c01Result{FP: "C01/worker-died/" + d.Frame, What: "worker died: " + d.Exit + "\n" + tailStr(d.Stderr, 1500)}, nil
+			return &c01Result{FP: "C01/worker-died/" + d.Frame, What: "worker died: " + d.Exit + "\n" + trunc(d.Stderr, 3500)}, nil
 		}
 		return nil, err
 	}
